@@ -100,6 +100,9 @@ func (vp *baseVoteproof) decodeJSON(b []byte, enc encoder.Encoder) (u baseVotepr
 		}
 
 		sfs := vp.sfs[i]
+		if sfs == nil || sfs.Fact() == nil {
+			return u, e.Errorf("empty sign fact found")
+		}
 
 		if majority != nil { // NOTE find in SignFacts
 			if sfs.Fact().Hash().Equal(majority) {
